@@ -153,3 +153,5 @@ package domain
 //@ func NewModelRegistryError
 //@   property C10
 //@   ensures res != nil && fresh(res)
+
+//@ interface PlatformProfile.GetName
